@@ -281,6 +281,12 @@ def _simulate_wrapper(w: ast.FunctionDef, scenario):
 
 
 def rule_r4(rep, program):
+    from . import stateproto
+
+    alt = stateproto.category_rule(rep, program, PROP, "R4", "copy() carries the cache and shares the counter; assignment clears only dependants; decorators evaluate only on a miss and store auxiliary outputs", "memo", {"copy", "assign", "pickle", "two-systems"})
+    if alt is not None:
+        _r4_decorators(alt, program)
+        return alt
     r = rep.rule("R4", "copy() forwards cache / shares tables; assignment clears only dependants; decorators call the method only on a miss and store aux outputs", floor=6)
     f = program.method("ChainState", "copy")
     calls = [n for n in ast.walk(f.node) if isinstance(n, ast.Call) and norm(n.func) in ("type(self)", "ChainState", "self.__class__")]
@@ -309,6 +315,11 @@ def rule_r4(rep, program):
     r.inst({"site": "__setattr__", "invalidation": inv})
     if inv is not None and inv[0] == "all":
         r.violate(PROP, "ChainState.__setattr__:clears-all", "assigning any variable clears the whole cache: a momentum refresh discards position-dependent values (gradients) and forces re-evaluation", node=body[i], file=sf.file)
+    _r4_decorators(r, program)
+    return r
+
+
+def _r4_decorators(r, program):
     # decorators: abstract runs over every combination of entry states / result conventions (see cachewrap); the
     # coarser per-entry simulation and flow-graph clauses below are the fallback when the decorator leaves the
     # executor's subset
@@ -421,7 +432,6 @@ def rule_r4(rep, program):
     r.inst({"site": "wrappers", "cross_call_state": [c[2] for c in cross]})
     for dname, node, what in cross:
         r.violate(PROP, f"{dname}.wrapper:cross-call-state:{norm(node)[:40]}", f"the {dname} wrapper {what}: cache keys contain id(system), so keys remembered across calls belong to the first system object that called; for any other object of the class the auxiliary outputs are stored under the wrong keys and its own lower-order values are evaluated again", node=node, file=program.func("states", dname).file)
-    return r
 
 
 def rule_r5(rep, program, se):
@@ -455,6 +465,14 @@ def rule_r6(rep, program):
 
 
 def rule_r7(rep, program):
+    from . import stateproto
+
+    if stateproto.closure(program) is not None:
+        # a dependency table whose variables share one set over-invalidates: the closure reports it (R4 / R8) as a value
+        # re-evaluated although nothing it depends on was assigned
+        r = rep.rule("R7", "every variable has its own dependency set [decided by the closure of the ChainState protocol: see R4 / R8]", floor=1)
+        r.inst({"decided by": "protocol closure"})
+        return r
     r = rep.rule("R7", "every site that builds a ChainState dependency table gives each variable its own set (a shared set makes every assignment invalidate every cached value)", floor=2)
     k = program.cls("ChainState")
     sites = []
